@@ -122,6 +122,15 @@ func RunCase(c *Case) *CaseResult {
 			res.Note = err.Error()
 			return res
 		}
+		if c.Log == nil { // a finding about the definition alone (no filter can be derived)
+			rd := ToReal(d)
+			if verr, p := SafeValidate(rd); verr != nil || p != nil {
+				res.Note = fmt.Sprintf("definition is not valid (%v) - nothing to check", verr)
+				return res
+			}
+			_, _, _, res.Findings = CheckFilterOf(d, rd)
+			return res
+		}
 		addr, topics, data, err := LogFromJSON(c.Log)
 		if err != nil {
 			res.Note = err.Error()
